@@ -166,19 +166,50 @@ Definition interior_vertices (closed : bool) (p : path) : list pt :=
 Definition end_vertices (closed : bool) (p : path) : list pt :=
   if closed then [] else match p with [] => [] | a :: t => match t with [] => [a] | _ => [a; last t a] end end.
 
-(* must-cover set of one path (len >= 2) *)
-Definition stroke_lo (c : stroke_cfg) (d tol : rat) (p : path) (q : pt) : bool :=
+(* sqrt D + t <= sqrt L   for integers D, L >= 0 and a rational t >= 0 *)
+Definition sqrt_plus_le (D : Z) (t : rat) (L : Z) : bool :=
+  let X := L * sq (snd t) - D * sq (snd t) - sq (fst t) in
+  (0 <=? X) && (4 * sq (fst t) * sq (snd t) * D <=? X * X).
+
+(* r <= sqrt L  for a rational r >= 0 *)
+Definition r_le_sqrt (r : rat) (L : Z) : bool := sq (fst r) <=? L * sq (snd r).
+
+Definition nthZ (l : list Z) (i : nat) : Z := nth i l 0.
+
+(* must-cover set of one path (len >= 2).  Sound for arbitrarily short edges:
+   - an edge rectangle shrunk by tol on every side lies in the ideal stroke; at an interior vertex whose two edges are
+     both at least d long (and whose join contains the round join) the whole disc of radius d around the vertex lies in
+     the stroke, so there the rectangle needs no margin along the edge;
+   - around a vertex the disc of radius min(d, adjacent edge lengths) lies in the stroke (joins other than Bevel;
+     end vertices only for round ends);
+   - with round joins and round (or joined) ends the stroke is exactly the set of points within d of the path. *)
+Definition stroke_lo (c : stroke_cfg) (exact : bool) (d tol : rat) (p : path) (q : pt) : bool :=
   let es := path_edges (sc_closed c) p in
   let n := length es in
+  let ls := map (fun e => dist2_pp (fst e) (snd e)) es in
   let h := rsub d tol in
-  let mjoin := if sc_discs c then r0 else tol in
   let mend := rsub tol (sc_ext_lo c) in
-  existsb (fun ie => let '(i, e) := ie in
-             let m0 := if negb (sc_closed c) && Nat.eqb i 0 then mend else mjoin in
-             let m1 := if negb (sc_closed c) && Nat.eqb (S i) n then mend else mjoin in
+  let closed := sc_closed c in
+  let prev_i := fun i : nat => match i with O => Nat.pred n | S i' => i' end in
+  let next_i := fun i : nat => if Nat.eqb (S i) n then O else S i in
+  let long2 := fun i j : nat => sc_discs c && r_le_sqrt d (nthZ ls i) && r_le_sqrt d (nthZ ls j) in
+  (0 <=? fst h) &&
+  (existsb (fun ie => let '(i, e) := ie in
+             let m0 := if closed || negb (Nat.eqb i 0) then (if long2 (prev_i i) i then r0 else tol) else mend in
+             let m1 := if closed || negb (Nat.eqb (S i) n) then (if long2 i (next_i i) then r0 else tol) else mend in
              in_rect2 e h m0 m1 q) (index_from 0 es)
-  || (sc_discs c && existsb (fun v => pt_within q v h) (interior_vertices (sc_closed c) p))
-  || (sc_enddisc_lo c && existsb (fun v => pt_within q v h) (end_vertices (sc_closed c) p)).
+   || (sc_discs c &&
+       existsb (fun ie => let '(i, e) := ie in
+                  (closed || negb (Nat.eqb i 0)) &&
+                  let v := fst e in let D := dist2_pp q v in
+                  pt_within q v h && sqrt_plus_le D tol (nthZ ls (prev_i i)) && sqrt_plus_le D tol (nthZ ls i))
+               (index_from 0 es))
+   || (sc_enddisc_lo c && negb closed &&
+       existsb (fun ie => let '(i, e) := ie in
+                  (Nat.eqb i 0 && (let v := fst e in pt_within q v h && sqrt_plus_le (dist2_pp q v) tol (nthZ ls i)))
+                  || (Nat.eqb (S i) n && (let v := snd e in pt_within q v h && sqrt_plus_le (dist2_pp q v) tol (nthZ ls i))))
+               (index_from 0 es))
+   || (exact && near_some (fst h) (snd h) es q)).
 
 (* must-uncover set of one path (len >= 2): q is outside every enlarged piece *)
 Definition stroke_out (c : stroke_cfg) (d tol : rat) (p : path) (q : pt) : bool :=
@@ -204,7 +235,8 @@ Definition path_lo jt et ml d tol (p : path) q : bool :=
   match p with
   | [] => false
   | [v] => point_lo d tol v q
-  | _ => stroke_lo (cfg_of jt et ml d (length p)) d tol p q
+  | _ => stroke_lo (cfg_of jt et ml d (length p))
+                   (jt_eqb jt JRound && (et_eqb et ERound || et_eqb et EJoined || et_eqb et EPolygon)) d tol p q
   end.
 Definition path_out jt et ml d tol (p : path) q : bool :=
   match p with
